@@ -2,12 +2,13 @@ package main
 
 import (
 	"fmt"
+	"strings"
 
 	"verif/harness/ph"
 )
 
 func defC04() *ph.Def {
-	return &ph.Def{Root: ph.CmdDef{Name: "prog",
+	return &ph.Def{Help: "help", Root: ph.CmdDef{Name: "prog",
 		Opts: []ph.OptDef{
 			{Name: "a", Kind: ph.Bool},
 			{Name: "s", Kind: ph.Str},
@@ -21,8 +22,8 @@ func defC04() *ph.Def {
 	}}
 }
 
-var c04Pre = []string{"p", "--a", "--s", "--s=v", "--so", "--io", "--l", "v", "--m", "k=v", "c", "--zz", "--li", "5"}
-var c04Tail = []string{"--a", "--s", "c", "--", "--zz", "-a", "p", "--d"}
+var c04Pre = []string{"p", "--a", "--s", "--s=v", "--so", "--io", "--l", "v", "--m", "k=v", "c", "--zz", "--li", "5", "--d", "--io=x"}
+var c04Tail = []string{"--a", "--s", "c", "--", "--zz", "-a", "p", "--d", "--help"}
 
 // judgeC04: argv = pre ++ ["--"] ++ tail, encoded in Extra["pre"] (length of pre).
 func judgeC04(pc *parserCase, verbose bool) []string {
@@ -40,7 +41,7 @@ func judgeC04(pc *parserCase, verbose bool) []string {
 }
 
 type c04Info struct {
-	inDomain, asValue, stoppedBefore, afterOptional, afterGreedy, tailHasKnown, laterTerminator bool
+	inDomain, asValue, stoppedBefore, afterOptional, afterGreedy, tailHasKnown, laterTerminator, failingPrefix bool
 }
 
 func c04Judge(def *ph.Def, pre, tail []string, verbose bool) ([]string, c04Info) {
@@ -77,8 +78,19 @@ func c04Judge(def *ph.Def, pre, tail []string, verbose bool) ([]string, c04Info)
 		return nil, info
 	}
 	if o1.HasErr {
-		// the prefix alone fails (unknown option in fail mode, missing argument at the end ...): not this property's business
-		return nil, info
+		// the prefix alone fails (unknown option in fail mode, conversion error ...): whether Parse fails is not this
+		// property's business, but the tail behind `--` must not have set anything either
+		info.failingPrefix = true
+		var out []string
+		if !o2.HasErr {
+			return nil, info // (only possible if the `--` rescued a missing argument: excluded above)
+		}
+		for k, v := range o1.Vals {
+			if o2.Vals[k] != v || o2.Called[k] != o1.Called[k] || o2.CalledAs[k] != o1.CalledAs[k] {
+				out = append(out, fmt.Sprintf("terminator: Parse fails on the part before `--` (%s); option %s is %s (called=%v) after that failure and %s (called=%v) when `-- %s` follows - a token after `--` set an option", o1.ParseErr, k, v, o1.Called[k], o2.Vals[k], o2.Called[k], strings.Join(tail, " ")))
+			}
+		}
+		return out, info
 	}
 	info.inDomain = true
 	stopped := exPre.StopIdx >= 0 // require-order stopped before reaching the terminator: it is part of the verbatim tail
@@ -139,8 +151,8 @@ func init() {
 	register(&Check{
 		ID:        "C04",
 		QuickSecs: 120, ThoroSecs: 1500,
-		Rule: "input-space exploration, differential: argv = pre ++ [`--`] ++ tail for every pre of length <= Lp over 14 tokens (positional, flag, valued / optional-valued / greedy multi-valued / map options and their values, command, unknown option) and every tail of length <= Lt over 8 tokens " +
-			"(known options, command name, further `--`, unknown and short options) in all 18 configurations; unless the reference model says the `--` is the still-missing mandatory value of the option before it (then the statement is applied to the next `--` of the tail), Parse(argv) must equal Parse(pre) in every option value, Called, warning and dispatch target and return remaining(pre) ++ tail; " +
+		Rule: "input-space exploration, differential: argv = pre ++ [`--`] ++ tail for every pre of length <= Lp over 16 tokens (positional, flag, valued / optional-valued / greedy multi-valued / map options and their values, command, unknown option) and every tail of length <= Lt over 9 tokens " +
+			"(known options, command name, further `--`, unknown and short options) in all 18 configurations; unless the reference model says the `--` is the still-missing mandatory value of the option before it (then the statement is applied to the next `--` of the tail), Parse(argv) must equal Parse(pre) in every option value, Called, warning and dispatch target and return remaining(pre) ++ tail; when Parse(pre) fails, Parse(argv) must fail with every option value and Called flag as after Parse(pre); " +
 			"distinct_nontrivial = distinct in-domain (configuration, pre, tail) cases",
 		Assume: []string{"pre longer than Lp / tail longer than Lt and other tokens are not covered"},
 		Run: func(c *RunCtx) {
@@ -184,6 +196,9 @@ func init() {
 						msgs, info := c04Judge(def, pre, tail, false)
 						if info.asValue {
 							res.count("cases_where_terminator_is_a_mandatory_value", 1)
+						}
+						if info.failingPrefix {
+							res.count("cases_with_a_failing_prefix_compared", 1)
 						}
 						if info.laterTerminator && info.inDomain {
 							res.count("in_domain_terminator_after_a_dashdash_taken_as_mandatory_value", 1)
